@@ -140,6 +140,20 @@ def main(tier, replay):
         status[st] = status.get(st, 0) + 1
         if st in ("harness_error", "wall_timeout"):
             raise RuntimeError("harness problem on schedule %s: %s" % (s.get("id"), res.get("why")))
+        if st == "skipped":
+            continue
+        if cl.is_stuck(res):
+            # the wall-clock watchdog: the client froze (a lock never released); the schedule is C16's
+            # finding when one of its API calls is among the frozen, C17's otherwise
+            begun = set(o_["o"] for o_ in res.get("obs", []) if o_["e"] == "start")
+            back = set(o_["o"] for o_ in res.get("obs", []) if o_["e"] in ("ret", "closeret"))
+            if begun - back:
+                sig = "C16 API call never returned: " + cl.hang_signature(res)
+                findings.setdefault(sig, ({"kind": "schedule", "sched": s, "observed": cl.summarize(res), "what": (res.get("stacks") or "")[:6000]},
+                                          "the client froze with op(s) %s not returned: %s" % (sorted(begun - back), (res.get("why") or "").split(" | ")[0])))
+            else:
+                deferred += 1
+            continue
         for sig, what in cl.monitor_c16(s, res):
             findings.setdefault(sig, ({"kind": "schedule", "sched": s, "observed": cl.summarize(res)}, what))
         if st == "crash":
